@@ -568,6 +568,36 @@ example : Ft.Table.wf { ops := [.acq 0 0, .acq 1 1, .rel 0, .guard 2], labels :=
 example : (Ft.run { ops := [.acq 0 0, .acq 1 1, .rel 0, .guard 2], labels := [[], [0], [1]] } (failAt 3)).released = [1] ∧
           (Ft.run { ops := [.acq 0 0, .acq 1 1, .rel 0, .guard 2], labels := [[], [0], [1]] } (failAt 3)).freed = [0] := by decide
 
+/-- **ft_partial_fill_released** — the element-wise filled object (`Op.acqp`, the `for (i..) { x[i] = make(); if (!x[i]) goto oops; }`
+    shape of hawk_rtx_callwith*strarr): in a table that passes the check, when the filling step itself fails the
+    failure exit releases the elements filled so far (`r`) together with everything acquired before. -/
+theorem ft_partial_fill_released (t : Ft.Table) (fail : Nat → Bool) :
+    ∀ (ops : List Ft.Op) (i : Nat) (held freed : List Nat) (r l : Nat) (rest : List Ft.Op),
+      ops = .acqp r l :: rest → Ft.wfFrom t ops held freed = true → held.Nodup → (∀ q, q ∈ freed → q ∉ held) →
+      fail i = true →
+      (Ft.runFrom t fail ops i held freed).ok = false ∧
+      r ∈ (Ft.runFrom t fail ops i held freed).released ∧
+      ∀ q, q ∈ held → q ∈ (Ft.runFrom t fail ops i held freed).released := by
+  intro ops i held freed r l rest hops hw hn hd hf
+  subst hops
+  have hs := Ft.runFrom_spec t fail (.acqp r l :: rest) i held freed hw hn hd
+  have hrun : Ft.runFrom t fail (.acqp r l :: rest) i held freed = Ft.exit t (held ++ [r]) freed l := by
+    simp [Ft.runFrom, hf]
+  rw [hrun] at hs ⊢
+  obtain ⟨_, _, h3, _⟩ := hs
+  have hk : (Ft.exit t (held ++ [r]) freed l).ok = false := rfl
+  obtain ⟨_, hm⟩ := h3 hk
+  refine ⟨rfl, (hm r).mpr (by simp [Ft.exit]), ?_⟩
+  intro q hq
+  exact (hm q).mpr (by simp [Ft.exit, hq])
+
+/-- non-vacuity (the table of hawk_rtx_callwithbcstrarr: block `v`, its elements, the call): the check accepts it,
+    rejects the variant whose failure exit forgets the elements, and a failure while filling releases both -/
+example : Ft.Table.wf { ops := [.acq 0 0, .acqp 1 1, .guard 1], labels := [[], [1, 0]] } = true := by decide
+example : Ft.Table.wf { ops := [.acq 0 0, .acqp 1 1, .guard 1], labels := [[], [0]] } = false := by decide
+example : (Ft.run { ops := [.acq 0 0, .acqp 1 1, .guard 1], labels := [[], [1, 0]] } (failAt 1)).released = [1, 0] ∧
+          (Ft.run { ops := [.acq 0 0, .acqp 1 1, .guard 1], labels := [[], [1, 0]] } (failAt 1)).held = [0, 1] := by decide
+
 /-! ### arr (C19's model) -/
 
 /-- **arr_insert_oom_atomic** — hawk_arr_insert under any allocator behaviour: an insert that does
